@@ -223,7 +223,7 @@ class SimDevice(object):
         if self.cfg.get("keepalive"):
             chunks = [b""] * int(self.cfg["keepalive"])      # a service that only ever sends empty writes (keep-alives)
         st.outq = [bytes(c) for c in (chunks or [])]
-        st.close_after = not self.cfg.get("never_close")
+        st.close_after = not self.cfg.get("never_close") and arg not in self.cfg.get("never_close_cmds", ())   # a command that hangs after its output so far
         self.pump(st)
 
     def pump(self, st):
